@@ -89,6 +89,19 @@ def oracle(tr, reply_timeout=None):
             continue
         sent = tr.sent(i) if op[0] == "send" else None
         actor = op[1] if op[0] == "send" else None
+        if op[0] == "send" and sent is None and actor in tk.names:
+            # a method return or error that names no call at all (REPLY_SERIAL 0) answers nothing: it must never reach anybody
+            try:
+                from .. import wiregen as _wg
+                pm = _wg.parse_message(op[2])
+            except Exception:
+                pm = None
+            if pm is not None and pm.mtype in (2, 3) and pm.get(5) == 0:
+                for to, ls in per.items():
+                    for l in ls:
+                        # (what arrives is itself no valid message: the receiving side's dump calls it corrupt)
+                        if to != actor and (l.startswith("corrupt") or (hexname(fld(l, "sender")) == tk.names[actor] and fld(l, "t") in ("2", "3"))):
+                            bad.append((None, "step %d: a reply that names no call (REPLY_SERIAL 0) from %s reached connection %s: %s" % (i, tk.names[actor], to, l[:120])))
         noreply = {}        # caller -> list of serials for which a NoReply from the bus arrived in this step
         for to, ls in per.items():
             for l in ls:
